@@ -77,7 +77,7 @@ Definition src2_validate_signature (run_xmlsec : pyval -> pyval -> pyval) (parse
    | BErr => PErr
    end)).
 
-(* saml2/response.py:AuthnResponse._assertion, lines 794-854 *)
+(* saml2/response.py:AuthnResponse._assertion, lines 801-861 *)
 Definition src2_assertion (check_sig : pyval -> pyval -> pyval -> pyval) (authn_ok : pyval -> pyval) (cond_ok : pyval -> pyval) (get_subject : pyval -> pyval) (v_self : pyval) (v_assertion : pyval) (v_verified : pyval) : pyval :=
   let v_exc := PErr in
   let v__resp_issuer := PErr in
